@@ -40,6 +40,19 @@ for d in sorted(p for p in (ROOT / "seeded").iterdir() if (p / "meta.json").exis
     verdict = ("quiet (exit 0)" if r["exit"] == 0 else f"ALARM exit {r['exit']}") if benign else ("caught" if r["caught"] else f"MISSED (exit {r['exit']})")
     cls = re.search(r"class=(\S+)", r.get("first_violation") or "")
     out.append(f"| {d.name} | {desc} | {verdict} | {cls.group(1) if cls else ''} | {r.get('replay_exit_on_changed_tree', '')} |")
+out.append("")
+out.append("### 14.3 Seeded changes the checks do not catch, and why")
+out.append("")
+out.append("* `C11-d3` needs the caller to change the working directory between `get_fcp()` and `Logger.error()` (relative root "
+           "path). The harness renders every error immediately, in the directory it parsed in; a cwd change between the two "
+           "calls is not part of the simulated environment. Left out on purpose: it is a property of the caller's process, not "
+           "of the input text or of the storage faults C11 is about.")
+out.append("* `C20-d2` needs a non-UTF-8 text encoding of the interpreter (`LC_ALL=C PYTHONUTF8=0 PYTHONCOERCECLOCALE=0`) "
+           "and a non-ASCII character in a module. The workloads do contain non-ASCII units, but the interpreter's encoding "
+           "is not a simulated dimension (on the pinned tree the same configuration already makes the ROOT file unreadable).")
+out.append("* `C10-c3` changes what a plug-in CHECK rejects (`impl <p> for <EnumName>`), not the gate: with it no registered check "
+           "rejects any more, so C10 holds as stated; that is C09's verdict specification (not applicable here). Kept as a "
+           "property-preserving change: gensim stays quiet.")
 text = "\n".join(out)
 p = ROOT / "DESIGN.md"
 s = p.read_text()
